@@ -280,6 +280,10 @@ class State:
 class Frame:
     fi: FuncInfo
     returns: list = field(default_factory=list)  # (State, Val)
+    yields: list = field(default_factory=list)  # (Val, tuple path) of an eagerly interpreted generator
+    yields_exact: bool = True
+    base_path_len: int = 0
+    base_loops: int = 0
 
 
 @dataclass
@@ -334,6 +338,7 @@ STR_SEARCH = {"find", "rfind", "index", "rindex"}
 RE_SEARCH = {"re.search", "re.match", "re.fullmatch"}
 COLL_MUTATORS = {"append", "add", "extend", "update", "insert", "appendleft", "remove", "discard", "pop", "clear", "popleft", "sort", "reverse", "setdefault", "difference_update", "intersection_update"}
 COMPLETE_BUILTINS = {"list", "set", "tuple", "frozenset", "sorted", "reversed"}
+FULL_CONSUMERS = {"list", "set", "tuple", "frozenset", "sorted", "dict", "sum", "max", "min", "len", "Counter", "deque"}
 
 
 class _Closure:
@@ -365,6 +370,7 @@ class Sym:
         self.handlers: list[HandlerCtx] = []
         self.frames: list[Frame] = []
         self.loop_ctl: list[dict] = []
+        self.eager: set[int] = set()  # call nodes whose generator result is consumed completely right away
         self._n = 0
         self.notes: list[str] = []
 
@@ -485,6 +491,12 @@ class Sym:
         cs = self.coll_state(v, st)
         if cs is not None and cs.exact and cs.kind != "dict":
             return list(cs.items)
+        if cs is not None and cs.exact and cs.kind == "dict":
+            ks = st.store.get(key(v) + ".keys")
+            if ks is not None and len(ks) == len(cs.items):
+                return [(k, c) for k, (_v, c) in zip(ks, cs.items)]
+            if not cs.items:
+                return []
         return None
 
     # ------------------------------------------------------------------ attribute store
@@ -597,6 +609,8 @@ class Sym:
                 if all(v == present[0] for v in present) and (len(present) == len(vals) or isinstance(present[0], CollState) or attr == "vars" or k.startswith("#")):
                     tgt[k] = present[0]
                     continue
+                if isinstance(present[0], tuple):
+                    continue  # key table of a dict literal that differs between the branches: dropped
                 if isinstance(present[0], CollState):
                     tgt[k] = self._merge_coll([(v, r) for v, r in zip(vals, rests) if v is not None])
                     continue
@@ -834,11 +848,22 @@ class Sym:
 
     def _e_Dict(self, e, st, ctx):
         deps = frozenset()
+        keys, vals = [], []
+        exact = True
         for k, v in zip(e.keys, e.values):
-            if k is not None:
-                deps |= self.deps(self.eval(k, st, ctx), st)
-            deps |= self.deps(self.eval(v, st, ctx), st)
-        return self.new_coll(st, "dict", [], exact=not e.keys, deps=deps)
+            vv = self.eval(v, st, ctx)
+            deps |= self.deps(vv, st)
+            if k is None:
+                exact = False
+                continue
+            kv = self.eval(k, st, ctx)
+            deps |= self.deps(kv, st)
+            keys.append(kv)
+            vals.append(vv)
+        c = self.new_coll(st, "dict", [(v, TRUE) for v in vals] if exact else [], exact, deps=deps)
+        if exact:
+            st.store[key(c) + ".keys"] = tuple(keys)
+        return c
 
     def _e_Lambda(self, e, st, ctx):
         fi = getattr(e, "_func", None)
@@ -858,9 +883,26 @@ class Sym:
         return self.eval(e.value, st, ctx)
 
     def _e_Yield(self, e, st, ctx):
-        if e.value is not None:
-            self.eval(e.value, st, ctx)
+        v = self.eval(e.value, st, ctx) if e.value is not None else Const(None)
+        fr = self.frames[-1]
+        fr.yields.append((v, conj(st.path[fr.base_path_len:])))
+        if len(self.loops) > fr.base_loops:
+            fr.yields_exact = False
         return Opq("<yield>")
+
+    def _e_YieldFrom(self, e, st, ctx):
+        if isinstance(e.value, ast.Call):
+            self.eager.add(id(e.value))
+        v = self.eval(e.value, st, ctx)
+        fr = self.frames[-1]
+        items = self.exact_items(v, st)
+        if items is not None and len(self.loops) == fr.base_loops:
+            rel = conj(st.path[fr.base_path_len:])
+            fr.yields += [(x, f_and([rel, c])) for x, c in items]
+        else:
+            fr.yields.append((Opq(f"elem({key(v)})", self.deps(v, st)), conj(st.path[fr.base_path_len:])))
+            fr.yields_exact = False
+        return Opq("<yield from>")
 
     def _e_Subscript(self, e, st, ctx):
         base = self.eval(e.value, st, ctx)
@@ -879,6 +921,12 @@ class Sym:
         items = self.exact_items(base, st)
         if items is not None and isinstance(idx, Const) and isinstance(idx.value, int) and all(c == TRUE for _v, c in items) and -len(items) <= idx.value < len(items):
             return items[idx.value][0]
+        cs = self.coll_state(base, st)
+        if cs is not None and cs.kind == "dict" and cs.exact and (key(base) + ".keys") in st.store:
+            ks = st.store[key(base) + ".keys"]
+            hit = [v for k, (v, c) in zip(ks, cs.items) if key(k) == key(idx) and c == TRUE]
+            if len(hit) == 1:
+                return hit[0]
         cls = self.classes_of(base, e.value, ctx)
         if len(cls) == 1:
             gi = self.repo.lookup_method(cls[0], "__getitem__")
@@ -914,6 +962,8 @@ class Sym:
             saved = list(st.path)
             if cond != TRUE:
                 st.path.append(cond)
+            if isinstance(g.iter, ast.Call):
+                self.eager.add(id(g.iter))
             it = self.eval(g.iter, st, ctx)
             st.path[:] = saved
             items = self.exact_items(it, st)
@@ -1003,6 +1053,11 @@ class Sym:
             fval = self.eval(f, st, ctx)
         else:
             fval = self.eval(f, st, ctx)
+        consumer = (isinstance(f, ast.Name) and f.id in FULL_CONSUMERS) or (isinstance(f, ast.Attribute) and f.attr in ("extend", "update", "join", "union", "intersection", "difference"))
+        if consumer:
+            for a in e.args:
+                if isinstance(a, ast.Call):
+                    self.eager.add(id(a))
         args: list[Val] = []
         star = False
         for a in e.args:
@@ -1180,7 +1235,8 @@ class Sym:
                 self.emit("call", fi.name, list(args), recv, st, ctx, e, ("fn", fi.fq), res)
             return res
 
-        if fi.is_abstract or is_generator(fi) or len(self.frames) >= self.max_depth or any(fr.fi.fq == fi.fq for fr in self.frames) or any("register" in d or "singledispatch" in d for d in fi.decorators):
+        gen = is_generator(fi)
+        if fi.is_abstract or (gen and (e is None or id(e) not in self.eager)) or len(self.frames) >= self.max_depth or any(fr.fi.fq == fi.fq for fr in self.frames) or any("register" in d or "singledispatch" in d for d in fi.decorators):
             return opaque("not interpretable")
         if self.descend is not None and ctx is not None and not self.descend(ctx, fi):
             return opaque("out of scope")
@@ -1233,7 +1289,7 @@ class Sym:
                 if not fill_missing:
                     return opaque("missing argument")
                 vars_[p] = Opq(p, frozenset({p}), kind="param")
-        frame = Frame(fi)
+        frame = Frame(fi, base_path_len=len(st.path), base_loops=len(self.loops))
         self.frames.append(frame)
         callee_st = State(vars_, st.store, list(st.path))
         try:
@@ -1258,6 +1314,11 @@ class Sym:
         val = mk_phi([(conj(s.path[n:]), v) for s, v in ends])
         st.store = merged.store
         st.path = merged.path
+        if gen:
+            ydeps = frozenset().union(*[self.deps(v, st) for v, _c in frame.yields]) if frame.yields else frozenset()
+            if frame.yields_exact:
+                return self.new_coll(st, "list", list(frame.yields), True, deps=ydeps)
+            return self.new_coll(st, "list", [], False, deps=ydeps | deps)
         return val
 
     # builtins -----------------------------------------------------------------------
@@ -1364,6 +1425,10 @@ class Sym:
             res = Opq(f"{key(base)}.{attr}({', '.join(key(a) for a in args)})", bdeps, kind="find" if attr in ("find", "rfind") else "index", meta=(self.deps(args[0], st), self.deps(base, st)))
             self.emit("call", attr, args, base, st, ctx, e, t, res)
             return res
+        if attr in ("search", "match", "fullmatch") and args and isinstance(base, Opq) and (base.key.startswith("re.compile(") or any(m[0] == "lib" and m[1].startswith("re.") for m in members(t))):
+            res = Opq(f"{key(base)}.{attr}({key(args[0])})", bdeps, kind="search", meta=(self.deps(base, st), self.deps(args[0], st)))
+            self.emit("call", "re." + attr, args, base, st, ctx, e, t, res)
+            return res
         if is_str and attr in ("startswith", "endswith", "isidentifier", "isdigit", "isalpha"):
             return BoolV(atom(f"{key(base)}.{attr}({', '.join(key(a) for a in args)})"), bdeps)
         if is_str and attr in ("strip", "lstrip", "rstrip", "lower", "upper", "replace", "format", "join", "removeprefix", "removesuffix", "split", "rsplit", "partition", "rpartition", "splitlines", "title", "casefold", "encode"):
@@ -1383,6 +1448,9 @@ class Sym:
 
         def put(**kw):
             st.store[ck] = dc_replace(st.store[ck], **kw)
+            if cs.kind == "dict":
+                st.store.pop(ck + ".keys", None)
+                st.store[ck] = dc_replace(st.store[ck], exact=False)
 
         if attr in ("append", "add", "appendleft", "insert") and args:
             v = args[-1]
@@ -1420,6 +1488,13 @@ class Sym:
             return Const(None)
         if attr == "copy":
             return self.new_coll(st, cs.kind, list(cs.items), cs.exact, cs.complete_of, cs.deps)
+        if cs.kind == "dict" and cs.exact and attr in ("values", "keys", "items") and (ck + ".keys") in st.store and len(st.store[ck + ".keys"]) == len(cs.items):
+            ks = st.store[ck + ".keys"]
+            if attr == "values":
+                return self.new_coll(st, "list", list(cs.items), True, deps=cs.deps)
+            if attr == "keys":
+                return self.new_coll(st, "list", [(k, c_) for k, (_v, c_) in zip(ks, cs.items)], True, deps=cs.deps)
+            return self.new_coll(st, "list", [(self.new_coll(st, "tuple", [(k, TRUE), (v, TRUE)]), c_) for k, (v, c_) in zip(ks, cs.items)], True, deps=cs.deps)
         if attr in ("get", "setdefault", "items", "values", "keys", "index", "count", "intersection", "union", "difference", "issubset", "issuperset", "symmetric_difference", "isdisjoint"):
             if attr == "setdefault":
                 self.emit("mutate", attr, args, c, st, ctx, e)
@@ -1655,6 +1730,8 @@ class Sym:
         return after
 
     def _s_For(self, s, st, ctx):
+        if isinstance(s.iter, ast.Call) and not any(isinstance(n, (ast.Break, ast.Return)) for b in s.body for n in ast.walk(b)):
+            self.eager.add(id(s.iter))
         it = self.eval(s.iter, st, ctx)
         if st.path[-1:] == [FALSE]:
             return None
